@@ -24,6 +24,7 @@ type caseC16 struct {
 	Ctrl  int      `json:"ctrl,omitempty"`  // control byte value
 	After bool     `json:"after,omitempty"` // ctrl: after a legal first chunk
 	W     *caseC08 `json:"w,omitempty"`
+	Src   *gen.Src `json:"src,omitempty"` // kind src: a generator-built raw LZMA2 stream
 }
 
 var c16Props = []ref.Props{{LC: 3, LP: 0, PB: 2}, {LC: 0, LP: 2, PB: 1}, {LC: 4, LP: 0, PB: 0}, {LC: 1, LP: 3, PB: 4}, {LC: 2, LP: 2, PB: 3}}
@@ -116,8 +117,56 @@ func readLZMA2(stream []byte) ([]byte, error) {
 	return io.ReadAll(r)
 }
 
+// checkC16Src: a generator-built legal chunk sequence with arbitrary
+// operation lists must be decoded by Reader2 to the constructed bytes.
+func checkC16Src(c caseC16, rec *ev.Rec) *ev.Failure {
+	b, err := c.Src.Build()
+	if err != nil {
+		rec.Incomplete("stream construction failed: " + err.Error())
+		return nil
+	}
+	res, err := ref.DecodeLZMA2(b.Stream, b.DictSize, true, nil, 0, 0, 0)
+	if err != nil || !bytes.Equal(res.Out, b.Content) || res.Consumed != len(b.Stream) {
+		rec.Incomplete(fmt.Sprintf("reference decoder disagrees with the constructed LZMA2 stream: %v", err))
+		return nil
+	}
+	if liblz.Available {
+		lout, lerr := liblz.DecodeRawLZMA2(b.Stream, b.DictSize)
+		if lerr != nil || !bytes.Equal(lout, b.Content) {
+			rec.Incomplete(fmt.Sprintf("liblzma disagrees with the reference decoder on a generated LZMA2 stream: %v", lerr))
+			return nil
+		}
+	}
+	for _, dc := range []int{readerDict("lzma2", b), 1 << 20} {
+		got, err := decodeAll("lzma2", b.Stream, dc)
+		if err != nil {
+			return ev.Fail(fmt.Sprintf("Reader2 (DictCap %d) rejects a legal generated chunk sequence after %d of %d bytes: %v", dc, len(got), len(b.Content), err),
+				"side", "reader", "what", "legal_rejected", "err", err.Error())
+		}
+		if !bytes.Equal(got, b.Content) {
+			return ev.Fail(fmt.Sprintf("Reader2 (DictCap %d) decodes a legal generated chunk sequence to different bytes (first difference at %d of %d)", dc, firstDiff(got, b.Content), len(b.Content)),
+				"side", "reader", "what", "legal_wrong_bytes")
+		}
+	}
+	rec.Class("src_stream")
+	nck := 0
+	for _, ck := range res.Chunks {
+		rec.Class("src_chunk=" + ref.CkNames[ck.Kind])
+		nck++
+	}
+	for _, f := range b.Features {
+		rec.Class(f)
+	}
+	if nck >= 3 {
+		rec.NonTrivial(ev.Hash64(b.Stream))
+	}
+	return nil
+}
+
 func checkC16(c caseC16, rec *ev.Rec) *ev.Failure {
 	switch c.Kind {
+	case "src":
+		return checkC16Src(c, rec)
 	case "seq":
 		seq := c.Seq
 		if c.End {
